@@ -61,6 +61,24 @@ func genWSnap(t *Tape) *WSnap {
 		}
 		s.DBIs = append(s.DBIs, d)
 	}
+	// Buffer growth steps of the streaming encoder (first step 10 MB, then
+	// doubling): rarely, one DBI gets entries that cross them.
+	if t.Chance("w-huge", 25) {
+		d := WDBI{Name: "huge"}
+		switch t.Choose("w-huge-kind", 3) {
+		case 0: // one value larger than the first step
+			d.Entries = append(d.Entries, WKV{Key: []byte("small"), Val: []byte("v"), TS: 1})
+			d.Entries = append(d.Entries, WKV{Key: []byte("zbig"), Val: bytes.Repeat([]byte("H"), 10*1024*1024+12345), TS: 2})
+		case 1: // fill most of the first step, then an entry larger than the room left after doubling
+			d.Entries = append(d.Entries, WKV{Key: []byte("a"), Val: bytes.Repeat([]byte("a"), 9*1024*1024+512*1024), TS: 1})
+			d.Entries = append(d.Entries, WKV{Key: []byte("b"), Val: bytes.Repeat([]byte("b"), 10*1024*1024+768*1024), TS: 2})
+		case 2: // many medium entries across two steps
+			for j := 0; j < 24; j++ {
+				d.Entries = append(d.Entries, WKV{Key: []byte(fmt.Sprintf("m%02d", j)), Val: bytes.Repeat([]byte{byte('a' + j)}, 1024*1024-j), TS: uint64(j + 1)})
+			}
+		}
+		s.DBIs = append(s.DBIs, d)
+	}
 	return s
 }
 
